@@ -116,6 +116,15 @@ def class_graphs(X, tag, tier):
                 "_extra_c_sources": [f"/*gpufun*/ double {name('lim')}({apn} apt)" + "{ return " + f"{apn}_get_x_max(apt);" + "}"]})
             Nest = type(name("Ne"), (X.HybridClass,), {"_xofields": {"t": Tr._XoStruct, "q": X.Int8}})
             return {"Ap": Ap._XoStruct, "Tr": Tr._XoStruct, "Ne": Nest._XoStruct}, [[Tr._XoStruct], [Nest._XoStruct], [Nest._XoStruct, Ap._XoStruct]], False
+        if kind == "same-name-override":
+            # two classes of one name among the roots: the last one is used (sort_classes' documented rule, build_kernels' override
+            # mechanism) -- with dependencies the first one does not have
+            en = name("Elem")
+            Tb = S(name("Tb"), {"v": X.Float64[:], "n": X.Int64})
+            Hp = S(name("Hp"), {"k": X.Int32})
+            Generic = S(en, {"x": X.Float64})
+            Override = S(en, {"x": X.Float64, "tab": Tb, "h": Hp, "w": X.Int16[:]})
+            return {"Elem": Override, "Tb": Tb, "Hp": Hp}, [[Generic, Override], [Generic, Override, Tb, Hp], [Tb, Generic, Override], [Override], [Generic, Tb, Override]], False
         if kind == "cycle2":
             A1 = S(name("A"), {"x": X.Float64})
             B = S(name("B"), {"a": A1})
@@ -133,7 +142,7 @@ def class_graphs(X, tag, tier):
             return {"A": A1}, [[A1]], True
         raise ValueError(kind)
 
-    for kind in ("fieldless-parent", "chain", "array-ref-union", "depends_on", "diamond-fieldless", "hybrid-depends_on", "cycle2", "cycle3", "selfcycle"):
+    for kind in ("fieldless-parent", "chain", "array-ref-union", "depends_on", "diamond-fieldless", "hybrid-depends_on", "same-name-override", "cycle2", "cycle3", "selfcycle"):
         yield (kind,) + build(kind)
 
 
@@ -199,7 +208,8 @@ def run(tier, seed, compile_limit=None):
             if len(names) != len(set(names)):
                 failed.append("emitted-twice")
             need = set()
-            todo = list(roots)
+            last_of = {c.__name__: c for c in roots}
+            todo = [c for c in roots if last_of[c.__name__] is c]
             while todo:
                 c = todo.pop()
                 if c.__name__ in need:
